@@ -6,7 +6,8 @@ from vcheck import Case, hx, flist, parse_vals
 PID = "C16"
 RULE = ("non-trivial = a 3-D rotation / axis-relative spherical-coordinate case whose axis is within 1e-6 of +-z "
         "(polar distance of the normalised axis) or has length outside [0.1,10], or a rotation with |alpha| > 2 pi, "
-        "or whose argument objects (axis, rotated vector, multiplied matrices) reach the call through a non-empty call history; "
+        "or whose argument objects (axis, rotated vector, multiplied matrices) reach the call through a non-empty call history, "
+        "or a history of at least two calls made in one pristine process (`seq`); "
         "guard requests (wrong dimension / axis size) count when they exit; distinct by case text")
 LEVEL_TEXT = ("Theorems (Coq, over the reals, for every angle and every non-zero axis of any length): the 2-D and 3-D matrices returned by the "
               "model of Rotation_Matrix are orthogonal (R^T R = R R^T = 1, all entries), have determinant one, the 3-D rotation fixes the axis and its unit vector, "
@@ -20,10 +21,16 @@ LEVEL_TEXT = ("Theorems (Coq, over the reals, for every angle and every non-zero
               "Cross, copies, and questions: Norm, Dot, Angle, reads, earlier Rotation_Matrix / Spherical_Coordinates calls with the object); theorems: questions leave the object alone, "
               "+= / -= give the value of the sum / difference, two objects of equal value give equal results whatever their histories, and a rotation / spherical coordinates about an object "
               "with any history are proper / of norm r at polar angle theta with respect to the value the object has at the call. "
+              "Histories of calls in one process: the model of a run of calls (Rotation_Matrix 2-D / 3-D / default axis, both Spherical_Coordinates, Angle) is the list of the "
+              "answers (the source keeps nothing between two calls); theorems: every call of a history gets the answer a process gets that makes this call only, a repeated call the same answer, "
+              "every 3-D / 2-D rotation at any position is the proper right-handed rotation by its own angle, alpha / -alpha / alpha again gives R, R^T = R^-1, R, "
+              "spherical coordinates at any position have norm r and polar angle theta. "
               "Not theorems: everything about rounding (orthogonality etc. 'to rounding', the behaviour near the poles in floating point, underflow of ev0^2+ev1^2, acos of a quotient an ulp above 1), "
               "and that the C++ objects carry no state beyond their components (the model has none by construction). "
               "Both are covered by the differential run of the extracted model against the library (bit-identical) - every Vector argument also as ONE live object taken through a generated "
-              "history (questions before the last change of value, compound assignments, copies, resizes, earlier calls with the same object), every multiplied matrix through a value-preserving history - and by "
+              "history (questions before the last change of value, compound assignments, copies, resizes, earlier calls with the same object), every multiplied matrix through a value-preserving history, and runs of calls in ONE pristine process (the same |alpha| with both signs and again, repeated and nearly equal "
+              "arguments, angles a period apart, 2-D / 3-D / default-axis entry points mixed, the same axis as one live object / as equal objects / negated / rescaled, interleaved with spherical-coordinate and Angle calls), "
+              "each answer compared bit for bit with the answer of a fresh process to the same call - and by "
               "the S4 predicates on the library's output (orthogonality, determinant, fixed axis, Rodrigues image, composition, (R v) R = v, R(alpha) u(phi) = u(phi+alpha), plain formula, norm (also by the library's Norm()), "
               "polar cosine and sine, the library's Angle, finite-difference handedness (ev x u(phi)).(u(phi+h)-u(phi)) = r^2 sin^2(theta) sin(h)) with a-priori rounding slack 64 eps, "
               "evaluated against the value the reference semantics of the history gives the object.")
@@ -105,6 +112,10 @@ def _perp(rng, n):
 #   qn qN qz qp | qd qo qO qe qa qb qc <list> | qr i | qw i (const members / reads, result dropped)
 #   cs r theta phi | cr alpha dim                        (earlier Spherical_Coordinates / Rotation_Matrix calls with this object)
 # and for a Matrix: pa ma pl mi <table> | tr | ms sm dv x | rs p q | cp eq se | sw i j | qd qi qo qt qn qs qT qe qp qm qb | qr i | qc j | qv <list>
+# Histories of CALLS: `seq p obj_1 .. obj_p m call_1 .. call_m` - the m calls are made one after the other in ONE process that has run nothing
+# before; obj_i (lists) are live Vector objects that serve several calls.  call = rot alpha dim <vec> | rotdef alpha dim | sph r theta phi |
+# spha r theta phi <vec> | angle <vec> <vec>;  <vec> = o i (object i) | l <list> (a temporary).  Output: m, the m answers inside the history,
+# then the answer of a fresh process to each call alone (FRESH_<outcome> when that process does not answer).
 class _Exit(Exception):
     pass
 
@@ -293,6 +304,24 @@ def _decode(line):
         if not hist: return ()
         k = cur.int(); d["nsteps"] += k
         return tuple(_rd_mstep(cur) for _ in range(k))
+    if op == "seq":
+        pool = [cur.lst() for _ in range(cur.int())]; calls = []
+
+        def ref():
+            k = cur.nxt()
+            if k == "o": i = cur.int(); return list(pool[i]), ("o", i)
+            return cur.lst(), ("l",)
+        for _ in range(cur.int()):
+            k = cur.nxt(); c = {"k": k}
+            if k == "rot": c.update(alpha=cur.num(), dim=cur.int()); c["axis"], c["ref"] = ref()
+            elif k == "rotdef": c.update(alpha=cur.num(), dim=cur.int(), axis=[0.0, 0.0, 1.0])
+            elif k == "sph": c.update(r=cur.num(), theta=cur.num(), phi=cur.num())
+            elif k == "spha": c.update(r=cur.num(), theta=cur.num(), phi=cur.num()); c["axis"], c["ref"] = ref()
+            elif k == "angle": c["a"], _ = ref(); c["b"], _ = ref()
+            else: raise ValueError("unknown call " + str(k))
+            calls.append(c)
+        d.update(pool=pool, calls=calls)
+        return d
     try:
         if op == "rot": d.update(alpha=cur.num(), dim=cur.int()); d["axis"] = vec()
         elif op == "rotdef": d.update(alpha=cur.num(), dim=cur.int(), axis=[0.0, 0.0, 1.0])
@@ -326,6 +355,14 @@ def _other(rng, v, n=None):
     return [rng.choice([rng.gauss(0, 1), rng.gauss(0, 1), float(rng.randint(-3, 3))]) * sc for _ in range(n)]
 
 
+_REL = []      # the angles of the call a history is generated for (set by _hist_cases): earlier calls with the object re-use them, with either sign
+
+
+def _rel_angle(rng):
+    if _REL and rng.random() < 0.6: return rng.choice(_REL)
+    return _angle(rng)
+
+
 def _question(rng, v):
     """a step that leaves the value alone: const members, reads, copies, earlier calls of the property's own functions"""
     n = len(v)
@@ -337,8 +374,8 @@ def _question(rng, v):
     if k in ("qa", "qb", "qd", "qo", "qO", "qe", "qc"): return (k, _other(rng, v))
     if k in ("qr", "qw"): return (k, rng.randrange(n))
     if k == "cs": return ("cs", 10 ** rng.uniform(-3, 3), _theta(rng), _phi(rng))
-    if k == "cr2": return ("cr", _angle(rng), 2)
-    if k == "cr3": return ("cr", _angle(rng), 3)
+    if k == "cr2": return ("cr", _rel_angle(rng), 2)
+    if k == "cr3": return ("cr", _rel_angle(rng), 3)
     return (k,)
 
 
@@ -490,39 +527,49 @@ def _hist_cases(rng, axis, tag, kinds):
         if rng.random() < 0.15: return _vhist(rng, None, three=three)
         return _vhist(rng, target, three=three)
     for kind in kinds:
-        st, hs, fin = obj(axis, kind not in ("rot", "spha", "sphang"))
-        nrm = math.sqrt(_dot(fin, fin)); n = [x / nrm for x in fin]
-        tags = (kind, tag, "history")
-        if kind == "rot":
-            cs.append(Case(f"hist rot {hx(_angle(rng))} 3 {flist(st)} {_fmt_vhist(hs)}", tags))
-        elif kind == "rotcomp":
-            a, b = _angle(rng), _angle(rng)
-            if abs(a + b) > 4 * PI: b = -b
-            cs.append(Case(f"hist rotcomp {hx(a)} {hx(b)} {_v3(st)} {_fmt_vhist(hs)} {_fmt_mhist(_mhist(rng))} {_fmt_mhist(_mhist(rng))}", tags))
-        elif kind in ("rotapply", "rotback"):
-            v = _perp(rng, n) if rng.random() < 0.7 else [rng.gauss(0, 1) for _ in range(3)]
-            vs, vh, vf = _vhist(rng, v, accept=lambda w: len(w) == 3 and all(math.isfinite(x) for x in w), three=True)
-            cs.append(Case(f"hist {kind} {hx(_angle(rng))} {_v3(st)} {_fmt_vhist(hs)} {_v3(vs)} {_fmt_vhist(vh)} {_fmt_mhist(_mhist(rng))}", tags))
-        elif kind == "rotaxis":
-            cs.append(Case(f"hist rotaxis {hx(_angle(rng))} {_v3(st)} {_fmt_vhist(hs)} {_fmt_mhist(_mhist(rng))}", tags))
-        elif kind == "rotsph":
-            r = 10 ** rng.uniform(-3, 3)
-            cs.append(Case(f"hist rotsph {hx(_angle(rng))} {hx(r)} {hx(_theta(rng))} {hx(_phi(rng))} {_v3(st)} {_fmt_vhist(hs)} {_fmt_mhist(_mhist(rng))}", tags))
-        elif kind == "sphrot":
-            r = 10 ** rng.uniform(-3, 3); th = _theta(rng); ph = _phi(rng)
-            # the returned vector is asked, changed by moderate amounts and asked again before it serves as an axis
-            u = [r * x for x in n]; us = []
-            for _ in range(rng.choice([0, 1, 2, 3])):
-                q = _question(rng, u) if rng.random() < 0.6 else rng.choice([("pa", _other(rng, u)), ("ma", _other(rng, u)), ("sa",), ("ms", 2.0), ("st", rng.randrange(3), r * rng.gauss(0, 1))])
-                us.append(q)
-            cs.append(Case(f"hist sphrot {hx(r)} {hx(th)} {hx(ph)} {hx(_angle(rng))} {_v3(st)} {_fmt_vhist(hs)} {_fmt_vhist(us)}", tags))
-        elif kind in ("spha", "sphang"):
-            r = 10 ** rng.uniform(-3, 3)
-            cs.append(Case(f"hist {kind} {hx(r)} {hx(_theta(rng))} {hx(_phi(rng))} {flist(st)} {_fmt_vhist(hs)}", tags))
-        elif kind == "sphad":
-            r = 10 ** rng.uniform(-3, 3)
-            h = rng.choice([1e-3, 1e-2, 0.1, 0.5, 1.0, rng.uniform(1e-3, 1.5)])
-            cs.append(Case(f"hist sphad {hx(r)} {hx(_theta(rng))} {hx(_phi(rng))} {hx(h)} {_v3(st)} {_fmt_vhist(hs)}", tags))
+        # the angle of the call comes first: the earlier Rotation_Matrix calls in the histories of its argument objects use it too (same |alpha|, both signs, repeated)
+        alpha = _angle(rng); beta = _angle(rng)
+        if abs(alpha + beta) > 4 * PI: beta = -beta      # the composed angle stays in the quantified range
+        _REL[:] = [alpha, -alpha, alpha, -alpha, beta, -beta] if kind.startswith("rot") or kind == "sphrot" else []
+        try: cs += _hist_case(rng, axis, tag, kind, alpha, beta, obj)
+        finally: _REL[:] = []
+    return cs
+
+
+def _hist_case(rng, axis, tag, kind, alpha, beta, obj):
+    cs = []
+    st, hs, fin = obj(axis, kind not in ("rot", "spha", "sphang"))
+    nrm = math.sqrt(_dot(fin, fin)); n = [x / nrm for x in fin]
+    tags = (kind, tag, "history")
+    if kind == "rot":
+        cs.append(Case(f"hist rot {hx(alpha)} 3 {flist(st)} {_fmt_vhist(hs)}", tags))
+    elif kind == "rotcomp":
+        a, b = alpha, beta
+        cs.append(Case(f"hist rotcomp {hx(a)} {hx(b)} {_v3(st)} {_fmt_vhist(hs)} {_fmt_mhist(_mhist(rng))} {_fmt_mhist(_mhist(rng))}", tags))
+    elif kind in ("rotapply", "rotback"):
+        v = _perp(rng, n) if rng.random() < 0.7 else [rng.gauss(0, 1) for _ in range(3)]
+        vs, vh, vf = _vhist(rng, v, accept=lambda w: len(w) == 3 and all(math.isfinite(x) for x in w), three=True)
+        cs.append(Case(f"hist {kind} {hx(alpha)} {_v3(st)} {_fmt_vhist(hs)} {_v3(vs)} {_fmt_vhist(vh)} {_fmt_mhist(_mhist(rng))}", tags))
+    elif kind == "rotaxis":
+        cs.append(Case(f"hist rotaxis {hx(alpha)} {_v3(st)} {_fmt_vhist(hs)} {_fmt_mhist(_mhist(rng))}", tags))
+    elif kind == "rotsph":
+        r = 10 ** rng.uniform(-3, 3)
+        cs.append(Case(f"hist rotsph {hx(alpha)} {hx(r)} {hx(_theta(rng))} {hx(_phi(rng))} {_v3(st)} {_fmt_vhist(hs)} {_fmt_mhist(_mhist(rng))}", tags))
+    elif kind == "sphrot":
+        r = 10 ** rng.uniform(-3, 3); th = _theta(rng); ph = _phi(rng)
+        # the returned vector is asked, changed by moderate amounts and asked again before it serves as an axis
+        u = [r * x for x in n]; us = []
+        for _ in range(rng.choice([0, 1, 2, 3])):
+            q = _question(rng, u) if rng.random() < 0.6 else rng.choice([("pa", _other(rng, u)), ("ma", _other(rng, u)), ("sa",), ("ms", 2.0), ("st", rng.randrange(3), r * rng.gauss(0, 1))])
+            us.append(q)
+        cs.append(Case(f"hist sphrot {hx(r)} {hx(th)} {hx(ph)} {hx(alpha)} {_v3(st)} {_fmt_vhist(hs)} {_fmt_vhist(us)}", tags))
+    elif kind in ("spha", "sphang"):
+        r = 10 ** rng.uniform(-3, 3)
+        cs.append(Case(f"hist {kind} {hx(r)} {hx(_theta(rng))} {hx(_phi(rng))} {flist(st)} {_fmt_vhist(hs)}", tags))
+    elif kind == "sphad":
+        r = 10 ** rng.uniform(-3, 3)
+        h = rng.choice([1e-3, 1e-2, 0.1, 0.5, 1.0, rng.uniform(1e-3, 1.5)])
+        cs.append(Case(f"hist sphad {hx(r)} {hx(_theta(rng))} {hx(_phi(rng))} {hx(h)} {_v3(st)} {_fmt_vhist(hs)}", tags))
     return cs
 
 
@@ -546,6 +593,166 @@ def _angle_pairs(rng, n):
         nb = math.sqrt(_dot(b, b)); b = [Lb * x / nb for x in b]
         out.append((a, b, tag))
     return out
+
+
+# ---------------------------------------------------------------- histories of calls in one process (`seq`)
+def _near(rng, x):
+    """a neighbour of x on a geometric ladder of distances: 1 .. 1000 ulp, or a relative distance 1e-16 .. 1e-6"""
+    if x == 0.0: return rng.choice([5e-324, 1e-300, 1e-16, 1e-9])
+    if rng.random() < 0.4:
+        y = x
+        for _ in range(rng.choice([1, 1, 2, 3, 10, 100, 1000])): y = math.nextafter(y, rng.choice([-math.inf, math.inf]))
+        return y
+    return x * (1.0 + rng.choice([-1.0, 1.0]) * 10 ** rng.uniform(-16, -6))
+
+
+def _in_range(x, lo, hi, period):
+    while x > hi: x -= period
+    while x < lo: x += period
+    return min(max(x, lo), hi)
+
+
+def _angle_motif(rng):
+    """a run of rotation angles in [-4pi, 4pi] that a memory of earlier calls (last angle, last |angle|, last sine / cosine, reduced angle, a table keyed by
+    the angle ...) would confuse: the same angle again, both signs back and forth, a period or half a period apart, supplementary, nearly equal,
+    larger then smaller, two angles interleaved, zeros of either sign"""
+    a = _angle(rng)
+    if a == 0.0 or rng.random() < 0.3: a = rng.choice([-1.0, 1.0]) * rng.choice([0.7, 2.5, 4.0, PI / 3, PI / 2, PI, 3.0, 1e-3, 7.0, 11.0, rng.uniform(0.01, 4 * PI)])
+    b = _angle(rng)
+    W = lambda x: _in_range(x, -4 * PI, 4 * PI, 2 * PI)
+    m = rng.choice(["repeat", "flip", "flip", "flip", "flip2", "flip3", "fliplong", "period", "half", "suppl", "near", "nearflip", "scale", "pair", "pairflip",
+                    "pairflip2", "zero", "walk"])
+    if m == "repeat": return [a] * rng.choice([2, 3, 4]), m
+    if m == "flip": return [a, -a, a], m
+    if m == "flip2": return [a, -a, -a], m
+    if m == "flip3": return [-a, a, a, -a], m
+    if m == "fliplong": return [a, -a, a, -a, a, a, -a], m
+    if m == "period": return [a, W(a + 2 * PI), a, W(a - 2 * PI), W(a + 4 * PI), a], m
+    if m == "half": return [a, W(a + PI), a, W(a - PI), -a], m
+    if m == "suppl": return [a, PI - a if abs(PI - a) <= 4 * PI else a, a, -(PI - a) if abs(PI - a) <= 4 * PI else -a], m
+    if m == "near": x = _near(rng, a); return [a, x, a, _near(rng, a), x], m
+    if m == "nearflip": x = _near(rng, a); return [a, -x, a, x, -a], m
+    if m == "scale": return [a, a / 2, a, W(2 * a), a / 2, -a], m
+    if m == "pair": return [a, b, a, b], m
+    if m == "pairflip": return [a, b, -a, -b, a], m
+    if m == "pairflip2": return [a, -a, b, -b, a, -b], m
+    if m == "zero": return [a, 0.0, -a, -0.0, a, 0.0], m
+    xs = [a]
+    for _ in range(rng.choice([3, 5, 7])):
+        x = xs[-1]; xs.append(rng.choice([x, -x, -x, a, -a, _near(rng, x), W(x + 2 * PI), W(x + PI), x / 2, b]))
+    return xs, m
+
+
+def _seq_case(rng, axis, atag):
+    """one history of calls; `axis` (from _axes: coordinate directions, near the poles, every length) is the axis most calls turn about"""
+    A = list(axis); L = math.sqrt(_dot(A, A)); n = [x / L for x in A]
+    Bv = rng.choice([[0.0, 0.0, 1.0], [0.0, 0.0, -1.0], [1.0, 0.0, 0.0], _perp(rng, n), [rng.gauss(0, 1) for _ in range(3)] ])
+    if not any(Bv): Bv = [1.0, 2.0, 2.0]
+    u = [rng.gauss(0, 1) * 10 ** rng.uniform(-3, 3) for _ in range(3)]
+    kf = rng.choice([2.0, -1.0, 0.5])
+    v = rng.choice([_perp(rng, _unit(u)), [x * kf for x in u], [rng.gauss(0, 1) for _ in range(3)], A])
+    if not any(u): u = [1.0, 0.0, 0.0]
+    if not any(v): v = [0.0, 1.0, 0.0]
+    pool = [A, list(A), Bv, u, v]          # objects 0 and 1: two objects of equal value
+    neg = lambda w: [-x for x in w]
+    sc = lambda w, k: [k * x for x in w]
+
+    def vecref(w, obj=None):
+        """the Vector argument w as a temporary or (when it is the value of a live object) as that object"""
+        if obj is not None and rng.random() < 0.6: return f"o {obj}"
+        return "l " + flist(w)
+    threads = []; tags = set()
+    # ---- Rotation_Matrix threads
+    for t in range(rng.choice([1, 1, 1, 1, 2, 0])):
+        angles, m = _angle_motif(rng); tags.add("seq-angles-" + m)
+        style = rng.choice(["same", "same", "same", "entries", "axes", "objects"])
+        fixed = rng.choice(["r2", "r3A", "r3A", "r3A", "r3o", "rd3", "rd2", "r3z"])
+        th = []
+        for a in angles:
+            k = fixed if style == "same" else rng.choice({"entries": ["r2", "rd2", "rd3", "r3z", "r3A", "r2ax"], "axes": ["r3A", "r3A", "r3-A", "r3kA", "r3B", "r3o"],
+                                                          "objects": ["r3o", "r3o2", "r3A", "r3o"]}[style])
+            if k == "r2": th.append(f"rot {hx(a)} 2 l 0")
+            elif k == "r2ax": th.append(f"rot {hx(a)} 2 {vecref(A, 0)}")
+            elif k == "rd2": th.append(f"rotdef {hx(a)} 2")
+            elif k == "rd3": th.append(f"rotdef {hx(a)} 3")
+            elif k == "r3z": th.append(f"rot {hx(a)} 3 l {flist([0.0, 0.0, rng.choice([1.0, 1.0, 2.0, L])])}")
+            elif k == "r3A": th.append(f"rot {hx(a)} 3 l {flist(A)}")
+            elif k == "r3o": th.append(f"rot {hx(a)} 3 o 0")
+            elif k == "r3o2": th.append(f"rot {hx(a)} 3 o 1")
+            elif k == "r3-A": th.append(f"rot {hx(a)} 3 l {flist(neg(A))}")
+            elif k == "r3kA": th.append(f"rot {hx(a)} 3 l {flist(sc(A, rng.choice([2.0, 0.5, 3.0, 1e3, 1e-3])))}")
+            else: th.append(f"rot {hx(a)} 3 {vecref(Bv, 2)}")
+        threads.append(th); tags.add("seq-rot-" + style)
+    # ---- Spherical_Coordinates threads: the same request again, r / theta / phi changed alone, reflected, nearly equal; with and without axis
+    for t in range(rng.choice([0, 1, 1, 2])):
+        r = 10 ** rng.uniform(-3, 3); th0 = _theta(rng); ph0 = _phi(rng)
+        if threads and threads[0][0].startswith("rot") and rng.random() < 0.3:
+            # the numbers a rotation of this history was called with
+            a = abs(float.fromhex(threads[0][0].split()[1])); th0 = _in_range(a, 0.0, PI, PI) if a > PI else a; ph0 = _in_range(a, 0.0, math.nextafter(2 * PI, 0), 2 * PI)
+        P = lambda x: _in_range(x, 0.0, math.nextafter(2 * PI, 0.0), 2 * PI)
+        T = lambda x: min(max(x, 0.0), PI)
+        m = rng.choice(["repeat", "r", "phi-reflect", "phi-half", "theta-reflect", "near", "swap", "walk"])
+        if m == "repeat": reqs = [(r, th0, ph0)] * 3
+        elif m == "r": reqs = [(r, th0, ph0), (2 * r, th0, ph0), (r, th0, ph0), (_near(rng, r), th0, ph0)]
+        elif m == "phi-reflect": reqs = [(r, th0, ph0), (r, th0, P(2 * PI - ph0)), (r, th0, ph0)]
+        elif m == "phi-half": reqs = [(r, th0, ph0), (r, th0, P(ph0 + PI)), (r, th0, ph0)]
+        elif m == "theta-reflect": reqs = [(r, th0, ph0), (r, T(PI - th0), ph0), (r, th0, ph0)]
+        elif m == "near": reqs = [(r, th0, ph0), (r, T(_near(rng, th0)), ph0), (r, th0, P(_near(rng, ph0))), (r, th0, ph0)]
+        elif m == "swap": reqs = [(r, th0, ph0), (r, T(ph0 if ph0 <= PI else ph0 - PI), P(th0)), (r, th0, ph0)]
+        else:
+            reqs = [(r, th0, ph0)]
+            for _ in range(rng.choice([3, 5])):
+                rr, tt, pp = reqs[-1]
+                reqs.append(rng.choice([(rr, tt, pp), (r, th0, ph0), (rr * 2, tt, pp), (rr, T(PI - tt), pp), (rr, tt, P(2 * PI - pp)), (rr, T(_near(rng, tt)), pp), (rr, tt, P(_near(rng, pp)))]))
+        style = rng.choice(["plain", "axis", "axis", "mixed", "mixed"])
+        th = []
+        for (rr, tt, pp) in reqs:
+            k = {"plain": "s", "axis": rng.choice(["A", "A", "o", "o2"]), "mixed": rng.choice(["s", "z", "A", "o", "-A", "kA", "B", "-z"])}[style]
+            head = f"{hx(rr)} {hx(tt)} {hx(pp)}"
+            if k == "s": th.append("sph " + head)
+            elif k == "z": th.append(f"spha {head} l {flist([0.0, 0.0, rng.choice([1.0, 2.0, L])])}")
+            elif k == "-z": th.append(f"spha {head} l {flist([0.0, 0.0, -rng.choice([1.0, 2.0, L])])}")
+            elif k == "A": th.append(f"spha {head} l {flist(A)}")
+            elif k == "o": th.append(f"spha {head} o 0")
+            elif k == "o2": th.append(f"spha {head} o 1")
+            elif k == "-A": th.append(f"spha {head} l {flist(neg(A))}")
+            elif k == "kA": th.append(f"spha {head} l {flist(sc(A, rng.choice([2.0, 0.5, 1e3, 1e-3])))}")
+            else: th.append(f"spha {head} {vecref(Bv, 2)}")
+        threads.append(th); tags.add("seq-sph-" + m)
+    # ---- Angle threads: the same pair again, swapped, one vector negated / rescaled, a vector with itself
+    for t in range(rng.choice([0, 0, 1])):
+        U = lambda: vecref(u, 3)
+        V = lambda: vecref(v, 4)
+        th = [f"angle {U()} {V()}"]
+        for _ in range(rng.choice([2, 3, 4])):
+            th.append(rng.choice([f"angle {U()} {V()}", f"angle {V()} {U()}", f"angle {U()} l {flist(neg(v))}", f"angle l {flist(sc(u, 2.0))} {V()}",
+                                  f"angle {U()} {U()}", f"angle {V()} l {flist(A)}", f"angle o 0 o 1"]))
+        threads.append(th); tags.add("seq-angle")
+    if not threads: threads.append([f"rot {hx(a)} 3 o 0" for a in _angle_motif(rng)[0]])
+    # ---- one process makes them all: thread after thread, or interleaved (each thread keeps its order)
+    if len(threads) > 1 and rng.random() < 0.5:
+        calls = []; idx = [0] * len(threads)
+        while True:
+            live = [i for i in range(len(threads)) if idx[i] < len(threads[i])]
+            if not live: break
+            i = rng.choice(live); calls.append(threads[i][idx[i]]); idx[i] += 1
+        tags.add("seq-interleaved")
+    else:
+        rng.shuffle(threads); calls = [c for th in threads for c in th]
+    return Case(f"seq {len(pool)} " + " ".join(flist(w) for w in pool) + f" {len(calls)} " + " ".join(calls), ("seq", atag) + tuple(sorted(tags)))
+
+
+def _seq_cases(rng, n_random):
+    cs = [_seq_case(rng, axis, tag) for axis, tag in _axes(rng, n_random)]
+    # a call the library refuses ends the process wherever it stands in the history
+    z = flist([0.0, 0.0, 1.0])
+    for bad in ("rot 0x1p-2 4 l " + z, "rot 0x1p-2 3 l " + flist([1.0, 0.0]), "rotdef 0x1p-2 1", "spha 0x1p+0 0x1p-2 0x1p-1 l " + flist([1.0]),
+                "angle l " + z + " l " + flist([1.0, 0.0]), "rot 0x1p-2 3 o 1"):
+        for k in (0, 1, 2):
+            good = ["rot 0x1p-1 3 o 0", "sph 0x1p+0 0x1p-2 0x1p-1", "rot -0x1p-1 2 l 0"]
+            calls = good[:k] + [bad] + good[k:]
+            cs.append(Case(f"seq 2 {z} {flist([1.0, 2.0])} {len(calls)} " + " ".join(calls), ("seq", "seq-guard")))
+    return cs
 
 
 def generate(rng, tier):
@@ -633,6 +840,8 @@ def generate(rng, tier):
             cs.append(Case(f"hist cross {flist(sa)} {_fmt_vhist(ha)} {flist(sb)} {_fmt_vhist(hb)}", ("cross", "history")))
         else: cs.append(Case(f"cross {flist(a)} {flist(b)}", ("cross",)))
     cs.append(Case(f"cross {flist([1.0, 0.0])} {flist([1.0, 0.0, 0.0])}", ("cross-guard",)))
+    # ---- histories of calls in one pristine process
+    cs += _seq_cases(rng, 3000 if big else 150)
     return cs
 
 
@@ -655,6 +864,7 @@ def nontrivial(c, io):
     if io.startswith("EXIT"): return "guard" in " ".join(c.tags)
     if d["exit"]: return False
     if op in ("cross", "angle", "sph"): return False
+    if op == "seq": return len(d["calls"]) >= 2
     if d["nsteps"] > 0: return True
     if op in ("rot", "rotdef"): return (d["dim"] == 3 and (ax_nt(d["axis"]) or abs(d["alpha"]) > 2 * PI)) or (d["dim"] == 2 and abs(d["alpha"]) > 2 * PI)
     if op == "rotcomp": return ax_nt(d["axis"]) or abs(d["a"]) > 2 * PI or abs(d["b"]) > 2 * PI
@@ -702,6 +912,117 @@ def _rot3_matrix_checks(R, alpha, axis, out, note=""):
         ref = _rodrigues(alpha, n, e)
         if not all(abs(R[i][j] - ref[i]) <= 64 * EPS for i in range(3)):
             out.append(("rot3:rodrigues", f"column {j} of R is {[R[i][j] for i in range(3)]!r}, Rodrigues' formula gives {ref!r}{note}")); break
+
+
+def _rot_answer_checks(alpha, dim, axis, R, out, note=""):
+    """the clauses for the matrix a valid Rotation_Matrix(alpha, dim, axis) call returned"""
+    if dim == 2:
+        if len(R) != 2 or len(R[0]) != 2: out.append(("rot:shape", "2-D rotation is not 2x2")); return
+        ca, sa = math.cos(alpha), math.sin(alpha); sl = 8 * EPS
+        # proper orthogonal and right-handed: the columns are (cos, sin) and (-sin, cos)
+        if not (abs(R[0][0] - ca) <= sl and abs(R[1][1] - ca) <= sl and abs(R[1][0] - sa) <= sl and abs(R[0][1] + sa) <= sl):
+            out.append(("rot2:entries", f"R = {R!r} is not [[cos,-sin],[sin,cos]] of alpha = {alpha!r}"))
+        g = [[math.fsum(R[k][i] * R[k][j] for k in range(2)) for j in range(2)] for i in range(2)]
+        if not all(abs(g[i][j] - (1.0 if i == j else 0.0)) <= 64 * EPS for i in range(2) for j in range(2)):
+            out.append(("rot2:orthogonal", f"R^T R = {g!r}"))
+        det = R[0][0] * R[1][1] - R[0][1] * R[1][0]
+        if not abs(det - 1.0) <= 64 * EPS: out.append(("rot2:determinant", f"det R = {det!r}"))
+    else:
+        if not any(axis) or not all(math.isfinite(x) for x in axis): return          # zero axis: outside the quantifier
+        _rot3_matrix_checks(R, alpha, axis, out, note)
+
+
+def _sph_answer_checks(r, th, ph, o, out):
+    w = o[1:4]; ref = [r * math.sin(th) * math.cos(ph), r * math.sin(th) * math.sin(ph), r * math.cos(th)]
+    if o[0] != 3 or not all(abs(w[i] - ref[i]) <= 8 * EPS * r for i in range(3)):
+        out.append(("sph:formula", f"Spherical_Coordinates = {w!r}, formula gives {ref!r}"))
+
+
+# ---- histories of calls (`seq`)
+def _call_valid(c):
+    """does the library answer this call (True) or end the process (False)?"""
+    k = c["k"]
+    if k == "rot": return c["dim"] == 2 or (c["dim"] == 3 and len(c["axis"]) == 3)
+    if k == "rotdef": return c["dim"] in (2, 3)
+    if k == "spha": return len(c["axis"]) >= 3 or (len(c["axis"]) == 2 and math.sqrt(_sdot(c["axis"], c["axis"])) == 0.0)
+    if k == "angle": return len(c["a"]) == len(c["b"])
+    return True
+
+
+def _show_call(c):
+    k = c["k"]
+    if k in ("rot", "rotdef"): return f"Rotation_Matrix({c['alpha']!r}, {c['dim']}" + (f", {c['axis']!r})" if k == "rot" else ")")
+    if k == "sph": return f"Spherical_Coordinates({c['r']!r}, {c['theta']!r}, {c['phi']!r})"
+    if k == "spha": return f"Spherical_Coordinates({c['r']!r}, {c['theta']!r}, {c['phi']!r}, {c['axis']!r})"
+    return f"Angle({c['a']!r}, {c['b']!r})"
+
+
+def _take_answer(c, o, i):
+    """(the tokens of the answer to call c that start at o[i], the index behind them)"""
+    if isinstance(o[i], str): return [o[i]], i + 1                 # FRESH_<outcome>
+    if c["k"] in ("rot", "rotdef"): n = 2 + o[i] * o[i + 1]
+    elif c["k"] in ("sph", "spha"): n = 1 + o[i]
+    else: n = 1
+    return o[i:i + n], i + n
+
+
+def _same_tokens(a, b):
+    return len(a) == len(b) and all((x == y and (not isinstance(x, float) or math.copysign(1.0, x) == math.copysign(1.0, y))) or
+                                    (isinstance(x, float) and isinstance(y, float) and math.isnan(x) and math.isnan(y)) for x, y in zip(a, b))
+
+
+def _call_clause_checks(c, a, out):
+    """the property's clauses for one answered call"""
+    k = c["k"]
+    if k in ("rot", "rotdef"):
+        R, _ = _mat(a); _rot_answer_checks(c["alpha"], c["dim"], c["axis"], R, out, f" (axis {c['axis']!r})")
+    elif k == "sph": _sph_answer_checks(c["r"], c["theta"], c["phi"], a, out)
+    elif k == "spha":
+        axis = c["axis"]
+        if len(axis) == 3 and any(axis) and all(math.isfinite(x) for x in axis): _spha_checks("spha", c["r"], c["theta"], axis, a[1:4], out)
+    elif k == "angle":
+        p, q = c["a"], c["b"]
+        if any(p) and any(q) and all(math.isfinite(x) for x in p + q): _angle_checks("angle", a[0], p, q, out, "Angle(a, b)")
+
+
+def _seq_checks(d, o, exited, out):
+    calls = d["calls"]
+    if not all(_call_valid(c) for c in calls):
+        if not exited: out.append(("seq:guard", "a history with a call the library must refuse was answered"))
+        return
+    if exited: out.append(("seq:exit", "a history of valid calls terminated the process")); return
+    m = o[0]; i = 1; ans = []; fresh = []
+    if m != len(calls): out.append(("seq:shape", f"{m} answers for {len(calls)} calls")); return
+    for c in calls:
+        a, i = _take_answer(c, o, i); ans.append(a)
+    for c in calls:
+        a, i = _take_answer(c, o, i); fresh.append(a)
+    before = lambda j: "; ".join(_show_call(c) for c in calls[:j]) or "nothing"
+    for j, (c, a, f) in enumerate(zip(calls, ans, fresh)):
+        sub = []; _call_clause_checks(c, a, sub)
+        fsub = []
+        if isinstance(f[0], str): out.append(("history:fresh-process", f"a fresh process does not answer {_show_call(c)} ({f[0]}), the history does")); continue
+        _call_clause_checks(c, f, fsub)
+        for sg, msg in sub:
+            if any(sg == g for g, _ in fsub): out.append((sg, f"call {j + 1} of a history, {_show_call(c)}: {msg}"))
+            else: out.append(("history:" + sg, f"call {j + 1}, {_show_call(c)}, after the calls [{before(j)}] in the same process: {msg}; a fresh process answers {f!r}, which meets the clause"))
+        if not sub and fsub:
+            for sg, msg in fsub: out.append((sg, f"{_show_call(c)} in a fresh process: {msg}"))
+        if not _same_tokens(a, f):
+            out.append((f"history:{c['k']}:depends-on-earlier-calls", f"call {j + 1}, {_show_call(c)}, answers {a!r} after the calls [{before(j)}] in the same process, but {f!r} in a fresh process"))
+    # clauses that relate two calls of the history: R(-alpha) = R(alpha)^T = R(alpha)^-1 about the same axis ("compose by adding angles": the sum is the
+    # identity); each entry is within 64 eps (3-D) / 8 eps (2-D) of the true one
+    rots = [(j, c, _mat(a)[0]) for j, (c, a) in enumerate(zip(calls, ans)) if c["k"] in ("rot", "rotdef")]
+    for x in range(len(rots)):
+        for y in range(x + 1, len(rots)):
+            (j1, c1, R1), (j2, c2, R2) = rots[x], rots[y]
+            if c1["dim"] != c2["dim"] or c1["alpha"] != -c2["alpha"] or (c1["dim"] == 3 and (c1["axis"] != c2["axis"] or not any(c1["axis"]))): continue
+            if not all(math.isfinite(v) for v in c1["axis"]): continue
+            nd = c1["dim"]; sl = (128 if nd == 3 else 16) * EPS
+            if len(R1) != nd or len(R2) != nd: continue
+            if not all(abs(R2[a_][b_] - R1[b_][a_]) <= sl for a_ in range(nd) for b_ in range(nd)):
+                out.append(("history:rot:opposite-angles", f"calls {j1 + 1} and {j2 + 1} of a history, {_show_call(c1)} and {_show_call(c2)}: the second matrix {R2!r} is not the transpose (= inverse) of the first {R1!r}"))
+                return
 
 
 def _matrix_history_slack(alpha, axis, steps):
@@ -761,7 +1082,9 @@ def predicates(c, io):
         # the history of an argument object is itself a request the library refuses (index / dimension guards)
         if not exited: out.append(("hist:guard", "a history step with an index or a dimension outside the object was accepted"))
         return out
-    if op in ("rot", "rotdef"):
+    if op == "seq":
+        _seq_checks(d, o, exited, out)
+    elif op in ("rot", "rotdef"):
         alpha, dim, axis = d["alpha"], d["dim"], d["axis"]; na = len(axis)
         valid = dim == 2 or (dim == 3 and na == 3)
         if not valid:
@@ -769,20 +1092,7 @@ def predicates(c, io):
             return out
         if exited: return [("rot:exit", "Rotation_Matrix terminated the process on a valid request")]
         R, _ = _mat(o)
-        if dim == 2:
-            if len(R) != 2 or len(R[0]) != 2: return [("rot:shape", "2-D rotation is not 2x2")]
-            ca, sa = math.cos(alpha), math.sin(alpha); sl = 8 * EPS
-            # proper orthogonal and right-handed: the columns are (cos, sin) and (-sin, cos)
-            if not (abs(R[0][0] - ca) <= sl and abs(R[1][1] - ca) <= sl and abs(R[1][0] - sa) <= sl and abs(R[0][1] + sa) <= sl):
-                out.append(("rot2:entries", f"R = {R!r} is not [[cos,-sin],[sin,cos]] of alpha = {alpha!r}"))
-            g = [[math.fsum(R[k][i] * R[k][j] for k in range(2)) for j in range(2)] for i in range(2)]
-            if not all(abs(g[i][j] - (1.0 if i == j else 0.0)) <= 64 * EPS for i in range(2) for j in range(2)):
-                out.append(("rot2:orthogonal", f"R^T R = {g!r}"))
-            det = R[0][0] * R[1][1] - R[0][1] * R[1][0]
-            if not abs(det - 1.0) <= 64 * EPS: out.append(("rot2:determinant", f"det R = {det!r}"))
-        else:
-            if not any(axis) or not all(math.isfinite(x) for x in axis): return out          # zero axis: outside the quantifier
-            _rot3_matrix_checks(R, alpha, axis, out, f" (axis {axis!r})" if d["hist"] else "")
+        _rot_answer_checks(alpha, dim, axis, R, out, f" (axis {axis!r})" if d["hist"] else "")
     elif op == "rotcomp":
         a, b, axis = d["a"], d["b"], d["axis"]
         if exited: return [("rotcomp:exit", "Rotation_Matrix terminated the process on a valid request")]
@@ -834,9 +1144,7 @@ def predicates(c, io):
     elif op == "sph":
         r, th, ph = d["r"], d["theta"], d["phi"]
         if exited: return [("sph:exit", "terminated the process")]
-        w = o[1:4]; ref = [r * math.sin(th) * math.cos(ph), r * math.sin(th) * math.sin(ph), r * math.cos(th)]
-        if o[0] != 3 or not all(abs(w[i] - ref[i]) <= 8 * EPS * r for i in range(3)):
-            out.append(("sph:formula", f"Spherical_Coordinates = {w!r}, formula gives {ref!r}"))
+        _sph_answer_checks(r, th, ph, o, out)
     elif op in ("spha", "sphad", "sphang", "sphrot"):
         r, th, ph, axis = d["r"], d["theta"], d["phi"], d["axis"]
         if len(axis) != 3 or not any(axis) or not all(math.isfinite(x) for x in axis):
